@@ -25,7 +25,9 @@ import (
 	ocispec "github.com/opencontainers/image-spec/specs-go/v1"
 )
 
-var scopes = []string{"reg.io/a", "reg.io/a/b", "reg.io/a/b/c", "reg.io/ab", "reg.io/a-b", "reg.io/a_b", "reg.io/a.b", "REG.io/a", "reg.io:5000/a", "localhost/a", "reg.io/b", "reg.io.evil.com/a", "sub.reg.io/a", "reg.io/a/a"}
+var scopes = []string{"reg.io/a", "reg.io/a/b", "reg.io/a/b/c", "reg.io/ab", "reg.io/a-b", "reg.io/a_b", "reg.io/a.b", "REG.io/a", "reg.io:5000/a", "localhost/a", "reg.io/b", "reg.io.evil.com/a", "sub.reg.io/a", "reg.io/a/a",
+	// long but perfectly legal repository paths (190, 255 and 300 characters; nothing limits the length of a scope), and a near miss
+	"reg.io/" + strings.Repeat("a", 183), "reg.io/" + strings.Repeat("a", 184), "reg.io/team/" + strings.Repeat("sub/", 60) + "app", "reg.io/" + strings.Repeat("b", 293)}
 
 type refPath struct {
 	path  string
@@ -67,7 +69,7 @@ func scribbleStrings(s []string) {
 
 func main() {
 	r := lib.Start("C08", "exploration")
-	r.Rule = "PRNG-generated valid OCI documents (1-4 statements over a 14-scope near-miss alphabet, optional wildcard/skip statement) x all statement permutations x a 38-path reference alphabet x {digest, none, tag, tag+digest, doubled @} suffixes; blob documents x name alphabet; distinct by (document, permutation, reference); non-trivial = selection succeeds"
+	r.Rule = "PRNG-generated valid OCI documents (1-4 statements over an 18-scope near-miss alphabet (incl. paths of 190-300 characters), optional wildcard/skip statement) x all statement permutations x a 42-path reference alphabet x {digest, none, tag, tag+digest, doubled @} suffixes; blob documents x name alphabet; distinct by (document, permutation, reference); non-trivial = selection succeeds"
 	r.Assumptions = []string{"validity of each reference path in the alphabet is tagged by construction from the distribution grammar, not recomputed",
 		"whitespace-only blob policy names are excluded (the statement does not say whether they count as 'no name')"}
 	rng := r.Rand("docs")
@@ -103,8 +105,11 @@ func main() {
 		for i := 0; i < k; i++ {
 			name := fmt.Sprintf("s%d", i)
 			p := trustpolicy.OCITrustPolicy{Name: name, SignatureVerification: trustpolicy.SignatureVerification{VerificationLevel: "strict"}, TrustStores: []string{"ca:" + name}, TrustedIdentities: []string{"*"}}
-			if rng.Intn(3) == 0 {
+			switch rng.Intn(6) {
+			case 0, 1:
 				p.SignatureVerification.Override = map[trustpolicy.ValidationType]trustpolicy.ValidationAction{trustpolicy.TypeRevocation: trustpolicy.ActionSkip, trustpolicy.TypeExpiry: trustpolicy.ActionLog}
+			case 2:
+				p.SignatureVerification.Override = map[trustpolicy.ValidationType]trustpolicy.ValidationAction{} // what `"override": {}` decodes to: present, empty
 			}
 			if dd.skip == "" && rng.Intn(5) == 0 {
 				p.SignatureVerification = trustpolicy.SignatureVerification{VerificationLevel: "skip"}
@@ -272,8 +277,11 @@ func main() {
 		for j := 0; j < k; j++ {
 			n := names[pm[j]]
 			p := trustpolicy.BlobTrustPolicy{Name: n, SignatureVerification: trustpolicy.SignatureVerification{VerificationLevel: "strict"}, TrustStores: []string{"ca:s" + fmt.Sprint(j)}, TrustedIdentities: []string{"*"}}
-			if rg.Intn(3) == 0 {
+			switch rg.Intn(6) {
+			case 0, 1:
 				p.SignatureVerification.Override = map[trustpolicy.ValidationType]trustpolicy.ValidationAction{trustpolicy.TypeRevocation: trustpolicy.ActionLog}
+			case 2:
+				p.SignatureVerification.Override = map[trustpolicy.ValidationType]trustpolicy.ValidationAction{}
 			}
 			if global == "" && rg.Intn(3) == 0 {
 				p.GlobalPolicy = true
